@@ -80,8 +80,10 @@ func strs(x []string) []string {
 func runAnalysisProp(prop string, r *Rng, n int, tier string) {
 	// the fixed corpus first; for C05 every statement also runs in a package whose earlier queries select each
 	// table plainly, for C10 every statement is additionally run with one relation / column renamed
-	l2Corpus(func(id, engine, schema string, q QStmt) {
-		emitAnalysis(prop, id, engine, schema, q, "", false, nil)
+	l2Corpus(func(id, engine, schema string, q QStmt, has, gone [][2]string) {
+		corpusHas = has
+		emitAnalysis(prop, id, engine, schema, q, "", false, gone)
+		corpusHas = nil
 		if prop == "C05" {
 			pre := "-- name: SeedA :many\nSELECT * FROM authors;\n\n-- name: SeedB :many\nSELECT * FROM books;\n\n-- name: SeedV :many\nSELECT * FROM venues;\n\n"
 			emitAnalysis(prop, id+"-p", engine, schema, q, pre, true, nil)
@@ -178,6 +180,8 @@ func runAnalysisProp(prop string, r *Rng, n int, tier string) {
 	}
 }
 
+var corpusHas [][2]string
+
 func emitAnalysis(prop, id, engine, schema string, q QStmt, prefix string, prepared bool, gone [][2]string) {
 	emitAnalysisFull(prop, id, engine, schema, q, prefix, prepared, gone, "")
 }
@@ -188,6 +192,9 @@ func emitAnalysisFull(prop, id, engine, schema string, q QStmt, prefix string, p
 	if gone != nil {
 		// what the migration removed, stated by the generator: the spec does not take sqlc's word for it
 		res.In["gone"] = gone
+	}
+	if corpusHas != nil {
+		res.In["has"] = corpusHas
 	}
 	res.In["stmt"] = q.SQL
 	res.In["cmd"] = q.Cmd
